@@ -34,6 +34,9 @@ def run(ctx):
     ctx.add_family(agg)
     for f in ctx.known():
         ctx.witness(f)
+    # what one template leaves behind (rejected templates, templates with options of their own) does not reach another
+    from .. import isolation
+    ctx.replays += isolation.run(ctx, "attributes")
     ctx.exhaustive = True
     ctx.rule = ("elements with 0-3 static attributes (mixed case, both quotes, spacing around '=') x tal:attributes "
                 "lists of <=3 entries over {class, CLASS, id, checked, title, dictionary} x values {None, default, '', "
